@@ -17,6 +17,10 @@ CHECKS = {
         technique='model-based (stateful) property testing: generated edit histories against a Python list/dict reference model, all observations compared after every step',
         text='Hypothesis draws an initial binding and up to 40 get/set/del operations by name, index, negative index, VARARGS and slice, with operands drawn relative to the evolving model state; after every step every public observation (cfg[:], cfg[i], getattr, ordered_arguments under all 24 flag combinations, dir, storage) must equal ModelArgs and rejected edits must leave them unchanged.',
         note='Trusted: harness/argmodel.ModelArgs (list semantics over fixed prefix + *args), CPython inspect.signature.'),
+    'C04': dict(
+        technique='property-based testing: generated Partial/ArgFactory/Config nestings and call sequences, differential oracle against a hand-written two-stage functools.partial reference, joint canonical form across calls',
+        text='Hypothesis generates a root Partial (generated signature shape or simple callable) whose arguments nest Configs, ArgFactories (also inside containers, inside other ArgFactories, as positional arguments, with custom-__eq__ products) and Partials, then 2-4 calls with positional extras and overriding keywords; each call outcome, the joint canonical form of all results (fresh vs reused vs passed through) and invocation counts must match the reference.',
+        note='Trusted: RefPartial/Marker/materialize in harness/props/c04.py, refmodel.form_call, canon with behavioural probing of callables.'),
 }
 
 PENDING = {}
